@@ -9,7 +9,8 @@ NAMESPACE = 'VL.C04'
 LEAN_MODULES = ['VotelibProofs.Props.C04']
 GEN_MODULES = ['Quota']
 REQUIRED = ['pscCheck_sound_complete', 'unsupported_coalition_trivial', 'droop_at_least_half', 'hare_at_least_half',
-            'majority_first_choice_wins', 'result_shape', 'psc_shared_rank_witness', 'psc_shared_rank_witness_spec']
+            'majority_first_choice_wins', 'result_shape', 'droop_positive', 'hare_positive', 'full_list_or_refusal',
+            'no_infinite_loop', 'psc_shared_rank_witness', 'psc_shared_rank_witness_spec']
 UNPROVED = ['mutual_majority (single seat, coalitions without shared ranks)',
             'psc_droop (general: n seats, k quotas; checked on every outcome with the verified pscCheck instead)']
 REQUIRED_COUNTERS = ['coalition_k_ge_1_and_larger', 'refusal', 'hare', 'shared_ranks', 'majority_winner', 'psc_false',
@@ -307,7 +308,7 @@ def _random_case(rng):
 def generate(rng, tier):
     for c in _directed(rng):
         yield c
-    N = 450 if tier == 'quick' else 9000
+    N = 1800 if tier == "quick" else 30000
     for _ in range(N):
         c = _random_case(rng)
         if rng.random() < 0.5:
@@ -373,5 +374,15 @@ def describe(case):
 
 TECHNIQUE = ('Lean 4 proofs about the executable STV model (majority winner, result shape, verified PSC checker) + differential '
              'correspondence of the model with votelib; the verified checker is applied to every outcome')
-LEVEL_TEXT = ''
-LEVEL_NOTE = ''
+LEVEL_TEXT = ('TransferableVoteSelector.evaluate is the Lean model of C03 run to completion (the independently computed weighted-inclusive-'
+              'Gregory count of the statement). Proved for all profiles: a sole first choice on more than half of the votes wins a '
+              'single-seat count (any transferer meeting the specification, Droop/Hare quota, with and without shared ranks elsewhere); '
+              'every returned list has exactly n distinct candidates of the profile; with Gregory transfer, eliminate_step -1 and no '
+              'mandatory quota the evaluation returns such a list or refuses with NotImplementedError whenever 1 <= n <= #candidates '
+              '(no infinite loop, no other outcome); the decidable checker pscCheck is sound and complete for proportionality for solid '
+              'coalitions quantified over all candidate subsets and all k. General Droop-PSC of the count itself is NOT proved: it is '
+              'checked with the verified checker on every model and implementation outcome, and it is false of the current code when '
+              'the supporters of a coalition share a rank inside it (witness theorem, known finding, proposed fix).')
+LEVEL_NOTE = ('Trusted: Lean kernel + propext/Classical.choice/Quot.sound; translate.py for the quota functions; the correspondence '
+              'harness (<= 6 candidates, <= 10 ballot types); random module replaced by recorded draws; frozenset iteration order. '
+              'Unproved: mutual majority and general PSC for the count (checked per outcome by the verified checker).')
